@@ -9,7 +9,7 @@ LEVEL = "exploration"
 RULE = ("recursive random values: None, bool, ints (incl. beyond 2**64), floats (+-0.0, 1e308, 5e-324, inf, nan), "
         "unicode strings (empty, quotes, control characters, U+2028, astral), UUIDs, a registered third-party type "
         "(decimal.Decimal, fractions.Fraction, a three-level plain-class chain Money > TaxedMoney > Tip registered base "
-        "first, a sub-class registered before its base, a registered sub-class of uuid.UUID, a registered iterable type (collections.deque), registered types and a serialisable class that derive from builtins (named tuple, IntEnum, str)) and an iterable SubclassJSONSerializer sub-class, a 4-level SubclassJSONSerializer hierarchy with nested serialisable fields, a serialisable class defined inside another class, lists nested "
+        "first, a sub-class registered before its base, a registered sub-class of uuid.UUID, a registered iterable type (collections.deque), registered types and a serialisable class that derive from builtins (named tuple, IntEnum, str)) and an iterable SubclassJSONSerializer sub-class, a 4-level SubclassJSONSerializer hierarchy with nested serialisable fields, a serialisable class defined inside another class, a serialisable class whose class statement is executed again between two round trips, lists nested "
         "to depth 5 and empty lists; oracle: from_json(json.loads(json.dumps(to_json(v)))) equals v (NaN-aware) with "
         "type(x) is type(y) at every position and every serialised object dict carries its fully qualified tag.  "
         "Non-trivial = value contains an object or a nested list; distinct = type-structure signature of the value")
@@ -25,7 +25,7 @@ def plan(tier):
             "min_counters": {"objects_roundtripped": 5000, "tags_checked": 5000, "leaf:float": 1000, "leaf:uuid": 300,
                              "leaf:decimal": 300, "lists": 3000, "leaf:taxedmoney": 100, "leaf:entityid": 100,
                              "leaf:early": 100, "leaf:tip": 100, "leaf:deque": 100, "leaf:point": 100, "leaf:level": 100,
-                             "leaf:name": 100}}
+                             "leaf:name": 100, "redefined_class_roundtrips": 500}}
 
 
 def setup(ctx):
@@ -90,7 +90,7 @@ def gen_value(rng, depth):
 
 
 def gen(rng, tier, ctx):
-    return {"value": gen_value(rng, rng.randint(0, 5))}
+    return {"value": gen_value(rng, rng.randint(0, 5)), "redefine": rng.random() < 0.05}
 
 
 def witnesses():
@@ -229,6 +229,33 @@ def check_tags(value, ser, path, problems, C):
                     check_tags(getattr(value, f.name), ser[f.name], f"{path}.{f.name}", problems, C)
 
 
+RELOADED_SOURCE = """
+@dataclass
+class Reloaded(Node1):
+    pass
+"""
+
+
+def redefined_class(jm, payload, C):
+    """The class statement of a serialisable class is executed again (module reload, notebook cell run twice) after
+    objects of the first definition went through from_json: objects of the class the name refers to now come back as
+    instances of exactly that class."""
+    from krrood.adapters.json_serializer import from_json, to_json
+    problems = []
+    for generation in range(2):
+        exec(RELOADED_SOURCE, jm.__dict__)
+        cls = jm.Reloaded
+        value = [cls(name=f"g{generation}", payload=payload), payload]
+        back = from_json(json.loads(json.dumps(to_json(value))))
+        C["redefined_class_roundtrips"] += 1
+        if type(back[0]) is not cls:
+            problems.append(f"$[0]: an instance of the {'re-' if generation else ''}defined class {cls.__module__}.{cls.__qualname__} "
+                            f"came back as an instance of another class object of that name (generation {generation})")
+        else:
+            same(value, back, "$", problems, C)
+    return problems
+
+
 def run(spec, ctx):
     from krrood.adapters.json_serializer import from_json, to_json
     jm = ctx["jm"]
@@ -243,6 +270,8 @@ def run(spec, ctx):
     except Exception as e:
         return {"status": "fail", "kind": "exception:" + type(e).__name__, "key": None, "detail": f"{type(e).__name__}: {e}"[:300]}
     same(v, back, "$", problems, C)
+    if spec.get("redefine") and not problems:
+        problems.extend(redefined_class(jm, v, C))
     if problems:
         return {"status": "fail", "kind": "roundtrip", "key": None, "detail": "; ".join(problems[:5])}
     sig = signature(spec["value"])
